@@ -411,17 +411,21 @@ func (r *RateLimiterRules) Rule(
 		return NewRateLimiter(rule.Limit, rule.Burst, checksum, t, desc), true
 	}
 
-	if hint.ClientID != "" && (r.clientid != nil && l.Type() == "clientid") &&
-		l.UpdatedAt() >= r.clientid.UpdatedAt() &&
+	// NOTE the rule sets can be replaced, even by nil at any time; they are
+	// loaded once under lock, instead of reading the fields again after the nil check.
+	clientid, nets := r.ClientIDRuleSet(), r.NetRuleSet()
+
+	if hint.ClientID != "" && (clientid != nil && l.Type() == "clientid") &&
+		l.UpdatedAt() >= clientid.UpdatedAt() &&
 		l.Desc() == clientIDRuleDesc(hint.ClientID) { // NOTE only the limiter of the same client id
 		return l, false
 	}
 
 	// NOTE client id rule set comes first; the limiter of the next rule sets can
 	// be kept without asking it, only if the request can not match it.
-	noclientid := hint.ClientID == "" || r.clientid == nil
+	noclientid := hint.ClientID == "" || clientid == nil
 
-	if noclientid && r.nets != nil && l.Type() == "net" && l.UpdatedAt() >= r.nets.UpdatedAt() {
+	if noclientid && nets != nil && l.Type() == "net" && l.UpdatedAt() >= nets.UpdatedAt() {
 		return l, false
 	}
 
@@ -617,16 +621,18 @@ func (r *RateLimiterRules) ruleByNode(
 		node = hint.Node
 	}
 
-	if node != nil && r.nodes != nil && l.Type() == "node" && l.UpdatedAt() >= r.nodes.UpdatedAt() {
+	nodes, suffrage := r.NodeRuleSet(), r.SuffrageRuleSet() // NOTE loaded once under lock; see Rule()
+
+	if node != nil && nodes != nil && l.Type() == "node" && l.UpdatedAt() >= nodes.UpdatedAt() {
 		return l, false, true
 	}
 
-	if node != nil && r.suffrage != nil && l.Type() == "suffrage" && l.UpdatedAt() >= r.suffrage.UpdatedAt() {
+	if node != nil && suffrage != nil && l.Type() == "suffrage" && l.UpdatedAt() >= suffrage.UpdatedAt() {
 		switch st, exists, err := r.IsInConsensusNodesFunc(); {
 		case err != nil:
 		case !exists(node):
 		case st.String() != l.Checksum():
-			if checksum, rule, desc, found := r.suffrage.Rule(addr, handler, hint); found {
+			if checksum, rule, desc, found := suffrage.Rule(addr, handler, hint); found {
 				return l.Update(rule.Limit, rule.Burst, checksum, "suffrage", desc), false, true
 			}
 		default:
